@@ -1843,7 +1843,6 @@ func writeInlineCache(key string, ov map[string][]byte) {
 	}
 }
 
-
 // ensureImports adds to f the imports that the bodies of inlinable helpers called from f need and f lacks (a helper
 // defined in another file of the package). An import that ends up unused is removed again by pruneUnusedImports.
 func (il *inliner) ensureImports(f *ast.File) {
@@ -2005,7 +2004,6 @@ func pruneUnusedImports(path string, files []*pkgFile, i int, imp types.Importer
 	}
 	files[i].content = buf.Bytes()
 }
-
 
 // isUnlockCall: x.Unlock() / x.RUnlock() - the only deferred calls the expansion replays (a panic between lock and
 // unlock behaves differently in the expanded form; that difference is irrelevant to the rules, which look at
